@@ -55,3 +55,42 @@ func TestRegressC20KnownBSI32MinMax(t *testing.T) {
 		inst.Known("C20", "id=bsi32-minmax-sentinel BitSliceIndexing.BSI.MinMax returns its start sentinel when every value equals the sentinel's low bits: MAX over {0:0} = MinInt64, MIN over {1:3, 2:3} = MaxInt64")
 	}
 }
+
+func TestRegressC19Fixed(t *testing.T) {
+	b := roaring64.NewBSI(1000, -1000)
+	b.SetValue(0, -1000)
+	if v, _ := b.Clone().GetValue(0); v != -1000 {
+		t.Fatalf("BSI64 Clone lost the sign: %d", v)
+	}
+	a := roaring64.NewDefaultBSI()
+	a.SetValue(0, -1)
+	o := roaring64.NewDefaultBSI()
+	o.SetValue(1, 2)
+	a.ParOr(0, o)
+	if v, _ := a.GetValue(0); v != -1 {
+		t.Fatalf("BSI64 ParOr between different widths: column 0 = %d, want -1", v)
+	}
+	r := roaring64.NewDefaultBSI()
+	r.SetValue(0, 1000)
+	r.RunOptimize()
+	n := roaring64.NewDefaultBSI()
+	n.SetValue(1, 1)
+	r.ParOr(0, n) // panicked: index out of range
+	x, y, z := bsi32.NewDefaultBSI(), bsi32.NewDefaultBSI(), bsi32.NewDefaultBSI()
+	x.SetValue(0, 0)
+	y.SetValue(1, 1)
+	z.SetValue(2, 0)
+	tgt := bsi32.NewDefaultBSI()
+	tgt.ParOr(0, x, y, z)
+	if v, _ := tgt.GetValue(1); v != 1 {
+		t.Fatalf("BSI32 ParOr lost the value of a wider operand: %d", v)
+	}
+}
+
+func TestRegressC20Fixed(t *testing.T) {
+	b := roaring64.NewBSI(1<<62, -(1 << 62))
+	b.SetValue(0, -1)
+	if s, _ := b.SumBigValues(nil); s.Int64() != -1 || !s.IsInt64() {
+		t.Fatalf("BSI64 SumBigValues over {-1} in a 64-plane index = %s", s)
+	}
+}
